@@ -55,8 +55,9 @@ def src_hash(*objs):
 class Instance:
     """one harness instance = one symbolic exploration (run in a worker process)"""
 
-    def __init__(self, name, fn, args=(), engine_kw=None, native=None, must_reach=()):
+    def __init__(self, name, fn, args=(), engine_kw=None, native=None, must_reach=(), pin=()):
         self.name, self.fn, self.args = name, fn, args
+        self.pin = tuple(pin)           # inputs that feed uninterpreted functions: pinned when a counterexample is refined
         self.engine_kw = engine_kw or {}
         self.native = native            # native(inputs, *args) -> outcome, for per-path cross validation
         self.must_reach = must_reach    # outcome classes (predicate names) that must be reached: vacuity guard
@@ -118,9 +119,43 @@ def _run_instance(inst):
         if len(summary['samples']) < 3 and r.model_inputs:
             summary['samples'].append({'instance': inst.name, 'decisions': len(r.decisions), 'witness': r.model_inputs,
                                        'outcome': okey})
+    if inst.pin and summary['violations']:
+        summary['violations'] = _refine(inst, summary['violations'])
     summary['stats'] = eng.stats.as_dict()
     summary['wall_s'] = round(time.time() - t0, 2)
     return summary
+
+
+def _refine(inst, violations):
+    """A counterexample whose model contains values of uninterpreted functions (HMAC/AES outputs) cannot be replayed natively.
+    Pin the inputs that feed those functions to the model's values - the functions are then evaluated for real - and solve
+    again for the remaining inputs.  The refined counterexample (if any) replaces the original."""
+    from symx import core
+    out, seen = [], set()
+    for v in violations:
+        if v['label'] in seen:
+            continue
+        seen.add(v['label'])
+        pinned = {k: v['inputs'][k] for k in inst.pin if k in v['inputs']}
+        eng = core.Engine(**dict(inst.engine_kw, pinned=pinned, max_paths=2000))
+        try:
+            results = eng.explore(lambda: inst.fn(*inst.args))
+        except (core.EngineAbort, Exception):      # noqa
+            results = []
+        found = None
+        for r in results:
+            if r.aborted:
+                continue
+            o = r.outcome
+            if isinstance(o, dict) and o.get('violation') == v['label']:
+                found = dict(v, inputs=r.model_inputs, refined=True)
+            for label, inputs in r.failed:
+                if label == v['label']:
+                    found = dict(v, inputs=inputs, refined=True)
+            if found:
+                break
+        out.append(found or v)
+    return out
 
 
 _INSTANCES = []
